@@ -108,7 +108,15 @@ def impl(line):
             for ln in out.splitlines():
                 cells = [c.strip() for c in re.split(r"[│┃|]", ln) if c.strip() != ""]
                 if len(cells) == 7 and cells[0] != "VER":
-                    rows.append("..." if cells[0] == "..." else str(int(cells[5]) - BASE))
+                    if cells[0] == "...":
+                        rows.append("...")
+                        continue
+                    i = int(cells[5]) - BASE
+                    # every printed header field is the field of that packet (independent of the library's accessors)
+                    want = [i % 8, i % 2, (i // 2) % 2, 100 + (i % 3) * 700, i % 4, BASE + i, 0]
+                    if [int(c) for c in cells] != want:
+                        return f"err row-fields-differ {' '.join(cells)}"
+                    rows.append(str(i))
             return "rows" + "".join(" " + r for r in rows)
         xf = os.path.join(d, "def.xml")
         with open(xf, "w") as f:
